@@ -1,10 +1,75 @@
 import VOPyVerif.Drv.Proto
-/-! Driver front end for property C16 (line protocol → executable model). -/
+import VOPyVerif.Model.Empirical
+/-! Driver front end for property C16 (empirical mean/variance model).
+
+* `run <m> <count> <noise> <tm><tv> <ops>` — replays a whole history on `Empirical.init` and answers
+  one token per op, separated by single spaces.  `<ops>` is an `@`-separated list of
+  * `A:<ints>:<Y>`  `add_sample(indices, Y_t)` (ints: comma-separated integers, `_` = empty; `Y`:
+    matrix, one row per sample row, rows may have any length),
+  * `C` `clear_data()`, `U` `update()`, `F:<tm><tv>` set the two flags,
+  * `P:<ints>` `predict` for these design indices (does not change the state).
+  Token: `ok` or the exception name (`ValueError`, `IndexError`, `AttributeError`, `TypeError`);
+  for `P`: `ok=<means>=<covs>` with `<means>` a matrix (one row per index) and `<covs>` a
+  `|`-separated list of matrices, all exact rationals.
+* `stat <m> <noise> <samples>` — `<meanOf>` `<varOf>` of one sample list (matrix, one row per sample):
+  the statistics the theorems of `Props/C16.lean` say `predict` reports.
+-/
 namespace VOPy.Drv.C16
-open VOPy VOPy.Proto
+open VOPy VOPy.Proto VOPy.Empirical
+
+def parseInts (s : String) : Option (List Int) := parseList "," String.toInt? s
+
+def fmtMats (l : List Mat) : String := fmtList "|" fmtMat l
+
+def parseFlags (s : String) : Option (Bool × Bool) :=
+  match s.toList with
+  | [a, b] => do
+    let x ← parseBool (String.singleton a)
+    let y ← parseBool (String.singleton b)
+    pure (x, y)
+  | _ => none
+
+inductive Cmd where
+  | op (o : Op)
+  | pred (idx : List Int)
+
+def parseCmd (s : String) : Option Cmd :=
+  match s.splitOn ":" with
+  | ["C"] => some (.op .clear)
+  | ["U"] => some (.op .update)
+  | ["F", f] => (parseFlags f).map (fun (a, b) => .op (.setFlags a b))
+  | ["P", i] => (parseInts i).map .pred
+  | ["A", i, y] => do
+    let idx ← parseInts i
+    let Y ← parseMat y
+    pure (.op (.add idx Y))
+  | _ => none
+
+def fmtErr : Option Err → String
+  | none => "ok"
+  | some e => e.name
+
+def replay : State → List Cmd → List String
+  | _, [] => []
+  | st, .op o :: rest =>
+    let r := step st o
+    fmtErr r.2 :: replay r.1 rest
+  | st, .pred idx :: rest =>
+    (match predict st idx with
+     | .error e => e.name
+     | .ok (ms, vs) => "ok=" ++ fmtMat ms ++ "=" ++ fmtMats vs) :: replay st rest
 
 def handle (args : List String) : String :=
   match args with
+  | ["run", m, c, nz, f, ops] =>
+    match m.toNat?, c.toNat?, parseRat nz, parseFlags f, parseList "@" parseCmd ops with
+    | some m, some c, some nz, some (tm, tv), some cmds =>
+      " ".intercalate (replay (init m c nz tm tv) cmds)
+    | _, _, _, _, _ => bad
+  | ["stat", m, nz, s] =>
+    match m.toNat?, parseRat nz, parseMat s with
+    | some m, some nz, some S => fmtVec (meanOf m S) ++ " " ++ fmtMat (varOf m nz S)
+    | _, _, _ => bad
   | _ => bad
 
 end VOPy.Drv.C16
